@@ -24,12 +24,17 @@ from ..c08gen import LoopGen
 MANIFEST = {
     'text': 'Gallina models of while/for unrolling, loop splitting, zip/enumerate elimination and any/all fusion exactly as '
             'coded (emitted schema, site selection by index / cursor / all, PEEL and STRICT, static-size specialisations with '
-            'the array-size analysis as an oracle, fresh temporaries). Proved for an arbitrary number instance: fuel '
-            'monotonicity is imported; while_unroll_sound (every k, every selection, early returns, nested loops, calls) at full '
-            'strength. Transforms whose preservation theorem is not finished are named in the evidence as "modelled, not yet '
-            'proved". Genuine defects found by the tie are proved as *_refuted witnesses on the model and listed as known '
-            'findings. Tied to /repo on every run: real strategy outputs are compared structurally with the model outputs and '
-            'original/transformed functions are executed on fpy2 and on the Gallina evaluator.',
+            'the array-size analysis as an oracle, fresh temporaries). PROVED for every number instance: while_unroll_sound at '
+            'full strength (every k, every selection, early returns, nested loops, calls); for_unroll_peel_sound_partial (every '
+            'unroll factor, every list length by induction, INTEGER index arithmetic exact under any ambient context, reads '
+            'adjacent to each body copy, in-place mutation of the iterated list, early returns; for the first top-level loop of a '
+            'function in the allocation-free call-free fragment) and the block-level simulations peel_block_sim and strict_block_sim '
+            '(STRICT when the length is divisible); the fresh-name lemma. REFUTED on the faithful model (genuine defects, known findings): zip/enumerate elimination with a body that '
+            'writes a source list; any/all fusion out of a while condition, out of a short-circuit operand, with a target that '
+            'names a variable. MODELLED, NOT YET PROVED: for-unroll STRICT at run level / static-size / nested-selected loops / allocating '
+            'bodies, split (all variants), the repaired elim_iter and fuse. Tied to /repo on every run: real strategy outputs are '
+            'compared structurally with the model outputs and original/transformed functions are executed on fpy2 and on the '
+            'Gallina evaluator.',
     'technique': 'machine-checked proof in Coq + structural model/implementation correspondence + differential execution (vm_compute)',
 }
 
@@ -360,7 +365,8 @@ def run(ck):
         'the array-size analysis (ArraySizeInfer) is an ORACLE of the for-unroll / split models: its answers are read from the real analysis; its soundness is not part of this property',
         'shared FPyLang evaluator coq/Lang/Sem.v (owned by C04) and the number instance coq/Lang/Transforms/NumInt.v (NumInst.v + MPFixed/INTEGER rounding + fmod)',
         'harness/lang.py exporter (fpy2 AST -> Coq term) and printers, harness/c08gen.py generator',
-        'MODELLED, NOT YET PROVED (covered by structural correspondence + differential execution only): see coq/Props/C08.v for the list of theorems; transforms without a preservation theorem there are modelled only',
+        'MODELLED, NOT YET PROVED (covered by structural correspondence + differential execution only): unroll_for with STRICT, with a statically known length, with loops nested in other statements / selected by cursor or all, with bodies that allocate lists or call functions; split (constant and variable factor, PEEL and STRICT); the repaired elim_iter and fuse (elim_iter_fixed, reduce_fusion_fixed); elim_iter and fuse as coded are REFUTED',
+        'the proved for-unroll theorem assumes exact INTEGER arithmetic of the number instance (int_exact; proved for the instance of the correspondence runs, C08_int_exact_inst)',
     ]
     ck.assumptions += [
         'a variable split factor holds an integer >= 1 at the loop (else the emitted assert fires); STRICT requires a divisible length; '
@@ -372,7 +378,7 @@ def run(ck):
         ck.props('Props/C08.v')
 
     fams = ['while', 'for', 'for', 'iter', 'iter', 'fuse']
-    nprog = int(os.environ.get('C08_NPROG', 900 if thorough else 90))
+    nprog = int(os.environ.get('C08_NPROG', 900 if thorough else 66))
     cases, info = [], []
     rejected = 0
     t0 = time.time()
